@@ -309,6 +309,34 @@ def make_scenario(spec, cls, verif_seed, index, depth=1):
     return sc
 
 
+def calibrate(spec, cls, sc, known, timeout):
+    """Strategy 'pbx' (calibrated pre-emption bound): a dry run of the same
+    scenario without any pre-emption measures how many scheduling decisions
+    it takes; the k pre-emption points are then drawn uniformly over that
+    length (minus the last task's share, where a pre-emption changes
+    nothing) instead of over a guessed horizon, and written into the
+    scenario as an ordinary explicit 'pb' strategy. A one-statement window
+    visited v times in a run of M decisions is hit with probability about
+    v/M per run, whatever M is."""
+    sched = sc.get("sched") or {}
+    st = sched.get("strategy") or {}
+    if st.get("kind") != "pbx":
+        return sc
+    import copy
+    dry = copy.deepcopy(sc)
+    dry["sched"]["strategy"] = dict(kind="pb", at=[])
+    res = fork_eval(spec, cls, dry, known, timeout)
+    s = res.get("sched") or {}
+    m = int(s.get("decisions") or 0)
+    per = s.get("per_task") or [0]
+    hi = max(2, m - int(per[-1]))
+    rng = random.Random(sched.get("seed", 0))
+    pts = sorted(set(rng.randrange(1, hi + 1)
+                     for _ in range(int(st.get("k", 1)))))
+    sc["sched"]["strategy"] = dict(kind="pb", at=pts, calibrated=m)
+    return sc
+
+
 class Agg(object):
     """Aggregated batch statistics (mergeable)."""
 
@@ -454,6 +482,7 @@ def _worker(spec, jobs, verif_seed, known, wfd, deadline, wid, nworkers):
                     break
                 index = first + i
                 sc = make_scenario(spec, cls, verif_seed, index, depth)
+                sc = calibrate(spec, cls, sc, known, timeout)
                 res = fork_eval(spec, cls, sc, known, timeout)
                 if res.get("verdict") == "violation":
                     res["scenario"] = sc
